@@ -149,3 +149,35 @@ pub(crate) fn report(acc: &mut vcore::evidence::Acc, fs: Vec<Finding>) {
 pub(crate) fn shard_of(i: u64, shard: usize, n: usize) -> bool {
     (i % n as u64) as usize == shard
 }
+
+
+/// Non-termination watchdog (monitor::watch): a thread that spends 20 s of its own CPU time inside ONE guarded call of a
+/// function under test will not return; that function then never produces the answer its property specifies.
+pub fn start_watchdog(property: &str, tier: vcore::Tier) {
+    const LIMIT: u64 = 20;
+    let prop = property.to_string();
+    monitor::watch::start(
+        LIMIT,
+        Box::new(move |context, secs| {
+            let ctx = vcore::Ctx::new(&prop, tier);
+            let mut acc = vcore::evidence::Acc::new();
+            acc.eval();
+            acc.nontrivial(&("did-not-return", context));
+            acc.violation(
+                format!("{prop}/did-not-return"),
+                "a call of the function under test did not return",
+                serde_json::json!({"context": context, "cpu_seconds_inside_one_call": secs, "limit_cpu_seconds": LIMIT}),
+            );
+            let code = ctx.finish(
+                acc,
+                vcore::evidence::Finish {
+                    level: "exploration",
+                    rule: format!("watchdog: one guarded call consumed {secs} s of its thread's CPU time without returning (limit {LIMIT} s). The run was ended at that point; only this observation is reported."),
+                    exhaustive: false,
+                    assumptions: vec!["per-thread CPU time, not wall-clock".into()],
+                },
+            );
+            std::process::exit(if code == 0 { 1 } else { code });
+        }),
+    );
+}
